@@ -40,6 +40,11 @@ WALL_BUDGET = {"quick": 900, "thorough": 3600}
 # ------------------------------------------------------------------------------------------------------------
 # plan: exhaustive sequences are chunked by their first two operations so that shards get equal work
 BOGUS = ("bogus", "bogusl", "bogusenterg", "bogusenterl")
+EXITS = ("exit", "exitx", "exitb")
+
+
+class _LeaveByBaseException(BaseException):
+    """stands for KeyboardInterrupt / GeneratorExit / SystemExit travelling through a backend_context"""
 
 
 def alphabet(nb, all_bogus=False):
@@ -48,7 +53,7 @@ def alphabet(nb, all_bogus=False):
         ops += [("setg", b), ("setl", b), ("enterg", b), ("enterl", b)]
     ops += [("bogus", None), ("exit", None), ("exitx", None), ("query", None)]
     if all_bogus:
-        ops += [(b, None) for b in BOGUS[1:]]
+        ops += [(b, None) for b in BOGUS[1:]] + [("exitb", None)]
     return ops
 
 
@@ -73,7 +78,7 @@ def plan(tier, seed):
 def floors(tier):
     return {"histories/exhaustive_backend": 30000, "histories/exhaustive_tenalg": 30000, "histories/random_backend": 50, "histories/random_tenalg": 50,
             "histories/cross_manager": 30, "stress_runs": 20, "observations": 300000, "dispatched_calls_checked": 300000, "rejected_selections": 10000,
-            "context_exits/normal": 5000, "context_exits/exception": 5000, "stress_yield_injections": 1000, "stress_dispatched_calls": 5000,
+            "context_exits/normal": 5000, "context_exits/exception": 2000, "context_exits/base-exception": 2000, "single_writer_windows": 200, "stress_yield_injections": 1000, "stress_dispatched_calls": 5000,
             "rejected_by/bogusenterg": 1000, "rejected_by/bogusenterl": 1000, "rejected_by/bogusl": 1000}
 
 
@@ -221,7 +226,7 @@ def do_op(m, stack, op, arg):
         cm.__enter__()
         stack.append(cm)
         return "ok"
-    if op in ("exit", "exitx"):
+    if op in ("exit", "exitx", "exitb"):
         if not stack:
             return "noop"
         cm = stack.pop()
@@ -229,12 +234,14 @@ def do_op(m, stack, op, arg):
             if op == "exit":
                 cm.__exit__(None, None, None)
             else:
-                exc = RuntimeError("leaving the context by exception")
-                suppressed = cm.__exit__(RuntimeError, exc, None)
+                # "by exception" includes the exceptions that are not Exception subclasses: an interrupt, a generator being closed
+                etype = RuntimeError if op == "exitx" else _LeaveByBaseException
+                exc = etype("leaving the context by exception")
+                suppressed = cm.__exit__(etype, exc, None)
                 if suppressed:
                     return "suppressed"
-        except RuntimeError as e:
-            if op == "exitx" and "leaving the context" in str(e):
+        except (RuntimeError, _LeaveByBaseException) as e:
+            if op != "exit" and "leaving the context" in str(e):
                 return "ok"
             return "exit-raised-%s" % type(e).__name__
         except Exception as e:  # noqa
@@ -273,7 +280,7 @@ def model_step(states, t, op, b):
             stacks_l[t] = stacks[t] + ((prev, op == "enterl"),)
             priv_l[t] = b
             out.add(((g if op == "enterl" else b), tuple(priv_l), tuple(stacks_l)))
-        elif op in ("exit", "exitx"):
+        elif op in EXITS:
             if not stacks[t]:
                 out.add((g, priv, stacks))
                 continue
@@ -336,12 +343,12 @@ def run_history(ctx, mname, hist, nthreads, nb, label):
                 ctx.violation("C17:%s:rejected-selection:%s" % (mname, outcome), "%s with an unknown backend name: outcome %s (expected ValueError)" % (
                     "set_backend" if op in ("bogus", "bogusl") else "backend_context", outcome), {"history": hist[:step + 1]})
                 return False
-        if op in ("exit", "exitx") and outcome not in ("ok", "noop"):
-            ctx.violation("C17:%s:context-exit:%s" % (mname, outcome), "leaving backend_context (%s) %s" % ("by exception" if op == "exitx" else "normally", outcome),
+        if op in EXITS and outcome not in ("ok", "noop"):
+            ctx.violation("C17:%s:context-exit:%s" % (mname, outcome), "leaving backend_context (%s) %s" % ("by exception" if op != "exit" else "normally", outcome),
                           {"history": hist[:step + 1], "manager": mname})
             return False
-        if op in ("exit", "exitx") and outcome == "ok":
-            ctx.count("context_exits/%s" % ("normal" if op == "exit" else "exception"))
+        if op in EXITS and outcome == "ok":
+            ctx.count("context_exits/%s" % {"exit": "normal", "exitx": "exception", "exitb": "base-exception"}[op])
         obs = [w.call("observe", mname) for w in workers]
         ctx.count("observations", len(obs))
         trace.append({"t": t, "op": op, "b": bname, "views": [o[0] for o in obs]})
@@ -384,13 +391,14 @@ def run_case(case, ctx):
             seq = pre + [alpha[i] for i in rest]
             # the single "rejected selection" letter stands for its four spellings (set / context entry x global / thread-local),
             # which the model treats alike: rotate through them by position so that each occurs in every context
-            hist = [(t, (BOGUS[(k + t + len(seq) * case["prefix"][0] + case["prefix"][1]) % 4] if op == "bogus" else op), b) for k, (t, (op, b)) in enumerate(seq)]
+            rot = len(seq) * case["prefix"][0] + case["prefix"][1]
+            hist = [(t, (BOGUS[(k + t + rot) % 4] if op == "bogus" else ("exitb" if op == "exitx" and (k + t + rot) % 2 else op)), b) for k, (t, (op, b)) in enumerate(seq)]
             # an exit with nothing to leave is a no-op identical to `query`: such sequences are covered by their query twin
             depth, redundant = [0, 0], False
             for t_, op_, _b in hist:
                 if op_ in ("enterg", "enterl"):
                     depth[t_] += 1
-                elif op_ in ("exit", "exitx"):
+                elif op_ in EXITS:
                     if depth[t_] == 0:
                         redundant = True
                         break
@@ -413,7 +421,7 @@ def run_case(case, ctx):
         nt = 3
         length = int(rs.randint(30, 201))
         alpha = alphabet(nb, all_bogus=True)
-        w = np.array([3 if op[0] in ("exit", "exitx") else 1 for op in alpha], dtype=float)
+        w = np.array([3 if op[0] in EXITS else 1 for op in alpha], dtype=float)
         hist = []
         for _ in range(length):
             op, b = alpha[int(rs.choice(len(alpha), p=w / w.sum()))]
@@ -449,6 +457,7 @@ def run_case(case, ctx):
         return
     if g.startswith("stress_"):
         stress(ctx, g.split("_")[1], rs, case)
+        single_writer(ctx, g.split("_")[1], rs, case)
         return
     raise ValueError(g)
 
@@ -587,3 +596,127 @@ def stress(ctx, mname, rs, case):
         kind = errors[0][0]
         ctx.violation("C17:%s:stress-%s:%s" % (mname, kind, "local-only" if local_only else "mixed"),
                       "free-running threads: %s" % (errors[0],), {"errors": errors[:5], "local_only": local_only, "actors": nact})
+
+
+def single_writer(ctx, mname, rs, case):
+    """one thread changes the shared default (global flavour), several threads do thread-local operations only, observer threads
+    never select anything. After each global selection the writer opens a window during which nothing global happens: every
+    observer must then see exactly the writer's last selection, whatever the local threads are in the middle of ("a thread-local
+    selection or thread-local context never changes what any other thread observes")."""
+    mgrs, _ = pool(0)
+    m = mgrs[mname]
+    reset_all(mgrs, [])
+    nb = len(m.names)
+    errors = []
+    inj = [0]
+    stop = threading.Event()
+    lock = threading.Lock()
+    state = {"stable": False, "expected": m.initial, "epoch": 0}
+    nloc = int(rs.randint(2, 5))
+    seeds = [int(rs.randint(0, 2 ** 31 - 1)) for _ in range(nloc + 1)]
+    windows = [0]
+
+    tool = None
+    try:
+        mon = sys.monitoring
+        tool = 3
+        mon.use_tool_id(tool, "tlv-c17")
+        from tensorly.backend import BackendManager
+        codes = {BackendManager.set_backend.__func__.__code__, BackendManager.backend_context.__func__.__wrapped__.__code__, BackendManager.current_backend.__func__.__code__}
+
+        def on_line(code, line):
+            if code in codes:
+                inj[0] += 1
+                time.sleep(0)
+                return None
+            return mon.DISABLE
+        mon.register_callback(tool, mon.events.LINE, on_line)
+        mon.set_events(tool, mon.events.LINE)
+    except Exception:  # noqa
+        tool = None
+
+    def writer():
+        r = np.random.RandomState(seeds[-1])
+        m.reset_thread()
+        cur = m.initial
+        for k in range(40):
+            if stop.is_set():
+                return
+            new = m.names[(m.names.index(cur) + 1 + int(r.randint(nb - 1))) % nb]   # always a different backend
+            with lock:
+                state["stable"] = False
+                state["epoch"] += 1
+            m.api.set_backend(new)
+            cur = new
+            with lock:
+                state["expected"] = new
+                state["stable"] = True
+            windows[0] += 1
+            t_end = time.monotonic() + 0.004
+            while time.monotonic() < t_end and not stop.is_set():
+                time.sleep(0)
+        with lock:
+            state["stable"] = False
+
+    def local_actor(i):
+        r = np.random.RandomState(seeds[i])
+        m.reset_thread()
+        stack = []
+        while not stop.is_set():
+            c = r.randint(4)
+            try:
+                if c == 0:
+                    m.api.set_backend(m.names[int(r.randint(nb))], local_threadsafe=True)
+                elif c in (1, 2):
+                    cm = m.api.backend_context(m.names[int(r.randint(nb))], local_threadsafe=True)
+                    cm.__enter__()
+                    stack.append(cm)
+                elif stack:
+                    stack.pop().__exit__(None, None, None)
+            except Exception as e:  # noqa
+                errors.append(("exception", i, type(e).__name__, str(e)[:100]))
+                stop.set()
+                return
+        while stack:
+            stack.pop().__exit__(None, None, None)
+
+    def observer(i):
+        m.reset_thread()
+        while not stop.is_set():
+            with lock:
+                st, exp, ep = state["stable"], state["expected"], state["epoch"]
+            if st:
+                seen = m.api.get_backend()
+                with lock:
+                    still = state["stable"] and state["epoch"] == ep
+                if still and seen != exp:
+                    errors.append(("observer-sees-stale-default", i, exp, seen))
+                    stop.set()
+                    return
+            time.sleep(0)
+
+    old = sys.getswitchinterval()
+    sys.setswitchinterval(1e-6)
+    try:
+        ths = [threading.Thread(target=observer, args=(i,), daemon=True) for i in range(2)] + [threading.Thread(target=local_actor, args=(i,), daemon=True) for i in range(nloc)]
+        wt = threading.Thread(target=writer, daemon=True)
+        for t in ths + [wt]:
+            t.start()
+        wt.join(timeout=120)
+        stop.set()
+        for t in ths:
+            t.join(timeout=10)
+    finally:
+        sys.setswitchinterval(old)
+        if tool is not None:
+            try:
+                sys.monitoring.set_events(tool, 0)
+                sys.monitoring.register_callback(tool, sys.monitoring.events.LINE, None)
+                sys.monitoring.free_tool_id(tool)
+            except Exception:  # noqa
+                pass
+    ctx.count("single_writer_runs")
+    ctx.count("single_writer_windows", windows[0])
+    ctx.count("stress_yield_injections", inj[0])
+    if errors:
+        ctx.violation("C17:%s:stress-%s:single-global-writer" % (mname, errors[0][0]), "one global writer, %d thread-local actors: %s" % (nloc, errors[0],), {"errors": errors[:5]})
